@@ -83,7 +83,9 @@ FAMILIES = [WritePathFamily, SearchFamily, MinMaxFamily, MergeFamily, QueryFamil
 
 # families whose monitors also judge predicates of a property owned by another family: their
 # violations of that property are reported by the property's check as well
-SECONDARY = {"C23": [QueryFamily], "C06": [FSStoreFamily]}
+# C11: MergeMonitor.tla evaluates C11_BagUnchanged / C11_KeysKept on populations of many files (several merge groups per call),
+# which the search cases (at most three files) do not build
+SECONDARY = {"C23": [QueryFamily], "C06": [FSStoreFamily], "C11": [MergeFamily]}
 
 # every harness runs with captured stdout/stderr and every monitor carries C27_Silent: for C27 the other
 # families' verdicts are folded in when their result for this tree is already cached (never computed for it)
